@@ -96,6 +96,8 @@ type SimSess struct {
 	Invs  []idRec
 
 	All []wamp.Message // everything received, in order
+	LastChallenge *wamp.Challenge
+	HelloAuthID   string
 
 	outq     chan sentRec
 	quit     chan struct{}
@@ -202,6 +204,7 @@ type Engine struct {
 	// sleeper survives into the next step (used when sessions have tiny queues).
 	Nudge    bool
 	Baseline map[wamp.URI]router.VerifSizes // H1 snapshot right after start
+	AuthSeen map[string][]string            // authid|method -> correct responses computed so far (for replays)
 }
 
 func NewEngine(c *Case) *Engine {
@@ -435,6 +438,8 @@ func (e *Engine) buildMsg(op *Op) wamp.Message {
 		return &wamp.Call{Request: req, Options: opts, Procedure: wamp.URI(op.URI), Arguments: args, ArgumentsKw: kw}
 	case "raw":
 		return buildRaw(op.Msg, res)
+	case "authresp":
+		return e.buildAuthResponse(s, op)
 	case "bytes":
 		var b []byte
 		if len(op.Args) > 0 {
@@ -449,6 +454,81 @@ func (e *Engine) buildMsg(op *Op) wamp.Message {
 		return &rawWSMsg{Type: op.N, B: b}
 	}
 	return nil
+}
+
+// secretOf looks up a configured user's secret in any realm configuration.
+func (e *Engine) secretOf(authid string) string {
+	cfgs := append([]RealmCfg{}, e.C.Realms...)
+	if e.C.Template != nil {
+		cfgs = append(cfgs, *e.C.Template)
+	}
+	for _, r := range cfgs {
+		for _, u := range r.Users {
+			if u.AuthID == authid {
+				return u.Secret
+			}
+		}
+	}
+	return ""
+}
+
+// buildAuthResponse computes an AUTHENTICATE (or something else) for the last
+// CHALLENGE the session received. op.Mode selects the kind of response; op.Err
+// names the user whose secret is used (default: the authid the session claimed).
+func (e *Engine) buildAuthResponse(s *SimSess, op *Op) wamp.Message {
+	ch := s.LastChallenge
+	if ch == nil {
+		ch = &wamp.Challenge{AuthMethod: "wampcra", Extra: wamp.Dict{"challenge": "none"}}
+	}
+	user := op.Err
+	if user == "" {
+		user = s.HelloAuthID
+	}
+	good := correctResponse(e.secretOf(user), ch)
+	key := user + "|" + ch.AuthMethod
+	sig := good
+	switch op.Mode {
+	case "correct":
+	case "wrongkey":
+		sig = correctResponse("not-the-secret", ch)
+	case "replay":
+		prev := e.AuthSeen[key]
+		sig = ""
+		for i := len(prev) - 1; i >= 0; i-- {
+			if prev[i] != good {
+				sig = prev[i]
+				break
+			}
+		}
+		if sig == "" {
+			sig = correctResponse("not-the-secret", ch)
+		}
+	case "bitflip":
+		b := []byte(good)
+		if len(b) > 2 {
+			if b[1] == 'A' {
+				b[1] = 'B'
+			} else {
+				b[1] = 'A'
+			}
+		}
+		sig = string(b)
+	case "malformed":
+		sig = "%%%not base64 or hex%%%"
+	case "wronglen":
+		if len(good) > 4 {
+			sig = good[:len(good)-4]
+		}
+	case "empty":
+		sig = ""
+	case "nonauth":
+		return &wamp.Subscribe{Request: s.NextReq(), Options: wamp.Dict{}, Topic: "a.b"}
+	}
+	if e.AuthSeen == nil {
+		e.AuthSeen = map[string][]string{}
+	}
+	e.AuthSeen[key] = append(e.AuthSeen[key], good)
+	return &wamp.Authenticate{Signature: sig, Extra: wamp.Dict{}}
 }
 
 // queue hands a message to the session's sender goroutine.
@@ -544,6 +624,9 @@ func (e *Engine) execOp(idx int, op *Op, st *StepRec) {
 	}
 	m := e.buildMsg(op)
 	if m != nil {
+		if h, ok := m.(*wamp.Hello); ok {
+			s.HelloAuthID, _ = wamp.AsString(h.Details["authid"])
+		}
 		e.queue(s, m, idx)
 	}
 }
@@ -627,6 +710,7 @@ func (e *Engine) observe(s *SimSess, m wamp.Message) {
 	case *wamp.Published:
 		e.Pubs = append(e.Pubs, m.Publication)
 	case *wamp.Challenge:
+		s.LastChallenge = m
 		if rsp := autoAuthenticate(s, m); rsp != nil {
 			e.queue(s, rsp, -1)
 		}
